@@ -151,10 +151,11 @@ func evalLua(r *rt.Runtime, src string) rt.Value {
 }
 
 // argument tuples: index space per function
-//   [0, 1)                 ()
-//   [1, 1+P)               (a)
-//   [1+P, 1+P+P*P)         (a, b)         quick: exhaustive too
-//   then nSampled tuples of length 3 or 4 drawn from the seed
+//
+//	[0, 1)                 ()
+//	[1, 1+P)               (a)
+//	[1+P, 1+P+P*P)         (a, b)         quick: exhaustive too
+//	then nSampled tuples of length 3 or 4 drawn from the seed
 type callPlan struct {
 	fns      []string
 	perFn    int
